@@ -9,9 +9,13 @@ from prov.constants import (PROV, XSD, PROV_ATTRIBUTE_QNAMES, PROV_ATTRIBUTE_LIT
                             PROV_VALUE, PROV_LOCATION, PROV_ROLE, XSD_INT, XSD_LONG, XSD_DOUBLE, XSD_BOOLEAN,
                             XSD_STRING, XSD_ANYURI, XSD_DATETIME)
 
-PREFIXES = ["ex", "ex_1", "dn", "foo", "ex2", "b", "prov", "xsd"]
+PREFIXES = ["ex", "ex_1", "dn", "foo", "ex2", "b", "prov", "xsd", "xs", "rdf"]
 URIS = ["http://a/", "http://a/b/", "http://other/", "urn:x:", "http://a/#", "http://www.w3.org/ns/prov#",
         "http://example.org/ns/"]
+# the built-in namespaces without their final '#': other namespaces, whatever they look like. Used for namespace histories (C03)
+# only: in PROV-XML the XML Schema namespace *is* declared without '#', so a document that also uses that URI as a namespace of
+# its own is not XML-expressible (C02/C10 do not cover it; see DESIGN A.6)
+HASHLESS_BUILTINS = ["http://www.w3.org/2001/XMLSchema", "http://www.w3.org/ns/prov"]
 LOCALS = ["x", "y", "e1", "e2", "a1", "ag", "a/b", "a.b", "x-1", "u_v", "b1", "Z9", "run:42", "urn:isbn:0451"]   # (a local part may itself contain colons)
 KINDS = [k.localpart for k in PROV_REC_CLS]
 ELEMENT_KINDS = ["Entity", "Activity", "Agent"]
